@@ -1,4 +1,5 @@
 import Infretis.Lemmas.WF
+import Infretis.Lemmas.WFSeg
 import Mathlib.Algebra.Order.Field.Rat
 import Mathlib.Tactic.Linarith
 /-!
@@ -231,6 +232,40 @@ theorem pick_total (l r : Int) (ops : List Int) (xi : Rat) (hxi : xi ≤ 1)
   · intro h; rw [h] at hw; simp [sumLens] at hw
 
 example : pick 0 2 [-1, 1, -1, 1, 1, -1] (1 / 2) = some (2, 5, 2) := by decide +kernel
+
+/-! ### the recorded segments are exactly valid sub-paths -/
+
+/-- **Segments.** Every `(a, b, c)` the scan records is a valid sub-path of the path: frames `a` and
+    `b` lie outside `[l, r)` and are not both on the right, every frame strictly between them is
+    inside, and `c = b − a − 1 ≥ 1` counts those frames. -/
+theorem scan_segments_valid (l r : Int) (hlr : l ≤ r) (ops : List Int) :
+    ∀ seg ∈ (scan l r ops).arr, ValidSeg l r ops seg :=
+  scan_segments_valid' l r hlr ops
+
+/-- **The seeding sub-path is one of them.** Whatever ξ ∈ (0, 1] is drawn, the segment returned for
+    a path of positive weight is a valid sub-path in the sense above. -/
+theorem pick_is_valid_segment (l r : Int) (hlr : l ≤ r) (ops : List Int) (xi : Rat) (seg : Nat × Nat × Nat)
+    (h : pick l r ops xi = some seg) : ValidSeg l r ops seg := by
+  unfold pick at h
+  simp only [] at h
+  split at h
+  · simp at h
+  · have : seg ∈ (scan l r ops).arr := by
+      have go : ∀ (arr : List (Nat × Nat × Nat)) (n cum : Nat), pickGo n xi cum arr = some seg → seg ∈ arr := by
+        intro arr
+        induction arr with
+        | nil => intro n cum hh; simp [pickGo] at hh
+        | cons s t ih =>
+          intro n cum hh
+          simp only [pickGo] at hh
+          split at hh
+          · simp at hh; simp [hh]
+          · exact List.mem_cons_of_mem _ (ih n _ hh)
+      exact go _ _ _ h
+    exact scan_segments_valid l r hlr ops seg this
+
+example : ValidSeg 0 2 [-1, 1, -1, 1, 1, -1] (2, 5, 2) :=
+  pick_is_valid_segment 0 2 (by decide) _ (1 / 2) _ (by decide +kernel)
 
 /-! ### the weight vector -/
 
